@@ -182,7 +182,37 @@ fn copies(seed: u64, rounds: usize, rep: &mut Report) {
     }
 }
 
+/// Result collections built from iterators whose size hint says little or far too much
+/// (`take_while` / `map_while` / `scan` over an astronomically long range, `filter`, chains): the
+/// total is the sum of what the iterator actually yields, in the order given - nothing may be
+/// sized after the hint.
+fn collected_from_odd_iterators(rep: &mut Report) {
+    let want: Vec<i64> = vec![0, 1, 2, 3, 4];
+    let builds: Vec<(&str, Box<dyn Fn() -> TestResults<Score<i64>>>)> = vec![
+        ("take_while over 0..u64::MAX", Box::new(|| (0..u64::MAX).map(|x| x as i64).take_while(|x| *x < 5).map(Score).collect())),
+        ("map_while over 0..usize::MAX", Box::new(|| (0..usize::MAX).map_while(|x| (x < 5).then_some(Score(x as i64))).collect())),
+        ("scan over an endless counter", Box::new(|| (0i64..).scan((), |(), x| (x < 5).then_some(Score(x))).collect())),
+        ("filter over 0..100", Box::new(|| (0..100i64).filter(|x| *x < 5).map(Score).collect())),
+        ("chain of an exact and a take_while part", Box::new(|| (0..2i64).chain((2..i64::MAX).take_while(|x| *x < 5)).map(Score).collect())),
+        ("From<take_while over 0..u64::MAX>", Box::new(|| TestResults::from((0..u64::MAX).map(|x| Score(x as i64)).take_while(|x| x.0 < 5)))),
+        ("skip(usize::MAX - 5) of repeat_n(.., usize::MAX) mapped", Box::new(|| std::iter::repeat_n(1i64, usize::MAX).take(5).enumerate().map(|(i, _)| Score(i as i64)).collect())),
+    ];
+    for (what, build) in builds {
+        vh_core::shard::set_context(format!("C15 TestResults collected from {what}"));
+        let r = catch(|| build());
+        rep.eval();
+        rep.count("collected-from-odd-iterators");
+        rep.distinct(fnv_str(what));
+        match r {
+            Ok(t) if t.results.iter().map(|s| s.0).collect::<Vec<_>>() == want && t.total_result == Score(10) => {}
+            Ok(t) => rep.violation("C15/TestResults/total", || json!({"built_from": what, "expected_results": want, "observed_results": format!("{:?}", t.results).chars().take(200).collect::<String>(), "observed_total": format!("{:?}", t.total_result)})),
+            Err(p) => rep.violation("C15/TestResults/panic", || json!({"built_from": what, "panic": p.to_string()})),
+        }
+    }
+}
+
 fn wrappers(rep: &mut Report) {
+    collected_from_odd_iterators(rep);
     partial_order_wrappers(rep);
     total_order_laws("Score", Score, |a, b| a.cmp(&b), true, rep);
     total_order_laws("Error", Error, |a, b| b.cmp(&a), true, rep);
